@@ -215,14 +215,9 @@ impl<'r> Gen<'r> {
                 let variants = (0..nv)
                     .map(|i| {
                         let np = self.rng.weighted(&[3, 4, 2]);
-                        let mut payload: Vec<Ty> = (0..np).map(|_| self.gen_ty(1)).collect();
-                        // garble's parser only accepts a first payload type that starts with an
-                        // identifier (see DESIGN: generator masks), so no array / tuple type there
-                        if let Some(first) = payload.first_mut() {
-                            while matches!(first, Ty::Array(..) | Ty::Tuple(_)) {
-                                *first = self.gen_ty(0);
-                            }
-                        }
+                        // (the first payload type may be an array or a tuple as well: the parser, which
+                        // accepted only types starting with an identifier there, was repaired)
+                        let payload: Vec<Ty> = (0..np).map(|_| self.gen_ty(1)).collect();
                         (format!("V{i}"), payload)
                     })
                     .collect();
@@ -1010,6 +1005,18 @@ impl<'r> Gen<'r> {
                         let c = self.type_cost(&cur) * 24;
                         self.charge(c);
                     }
+                    // the index expression sometimes is a block that first assigns to another element
+                    // of the same array (the place must be read after its index expressions ran)
+                    let idx = if n > 0 && self.in_head == 0 && !et.is_unit() && !self.contains_struct(&et) && self.rng.chance(1, 10) {
+                        self.note("index-expression-assigns-to-the-assigned-variable");
+                        let mut inner_accs = accs.clone();
+                        inner_accs.push(Acc::Index(lit_int(ints::USIZE, self.rng.usize_below(n) as i128)));
+                        let v2 = self.gen_expr(&et, 1);
+                        let set = Stmt::new(StmtKind::Assign { var: v.name.clone(), accs: inner_accs, op: None, value: v2, target_ty: (*et).clone() });
+                        e(ExprKind::Block(Block { stmts: vec![set], tail: Some(Box::new(idx)) }), Ty::Int(ints::USIZE))
+                    } else {
+                        idx
+                    };
                     accs.push(Acc::Index(idx));
                     cur = *et;
                 }
